@@ -1,6 +1,9 @@
 /* C16(b) driver: calls the real debug-state functions of /repo (normal build, real threads)
    for every buffer size, with canary bytes around the buffer.  Output per case:
-   "<fn> <state> <n> <hex of full text> <hex of buf[-8..n+8)>" */
+   "<fn> <state> <n> <ret==buf> <hex of full text> <hex of buf[-8..n+8)> <stable>"
+   The full text is taken with a big buffer BEFORE and AFTER the call with the small buffer; <stable> is 1 when the two agree
+   (the object did not change meanwhile, so the small-buffer result describes the same state); otherwise the triple is
+   retried a few times, and a case that never settles is printed with <stable> 0 (only its text-independent parts are judged). */
 #include "nsync.h"
 #include "nsync_debug.h"
 #include <stdio.h>
@@ -21,30 +24,64 @@ static void *cvwaiter (void *a) { nsync_mu_lock (&mu); while (!go) nsync_cv_wait
 
 static void hex (const unsigned char *p, int n) { int i; for (i = 0; i < n; i++) printf ("%02x", p[i]); }
 
+static char *call (int fn, char *b, int n) {
+	switch (fn) {
+	case 0: return nsync_mu_debug_state (&mu, b, n);
+	case 1: return nsync_mu_debug_state_and_waiters (&mu, b, n);
+	case 2: return nsync_cv_debug_state (&cv, b, n);
+	default: return nsync_cv_debug_state_and_waiters (&cv, b, n);
+	}
+}
+
 static void run_sizes (int fn, int state) {
-	static char big[8192];
+	static char big[8192], big2[8192];
 	unsigned char area[8192 + 64];
 	int n, sizes[140], ns = 0;
 	for (n = 0; n <= 80; n++) sizes[ns++] = n;
 	sizes[ns++] = 127; sizes[ns++] = 128; sizes[ns++] = 200; sizes[ns++] = 511; sizes[ns++] = 1024; sizes[ns++] = 4000;
 	sizes[ns++] = -1; sizes[ns++] = -100;
 	for (n = 0; n < ns; n++) {
-		int sz = sizes[n];
+		int sz = sizes[n], attempt, stable = 0;
 		char *buf = (char *) area + 32;
-		char *r;
-		memset (area, 0xEE, sizeof (area));
-		memset (big, 0, sizeof (big));
-		switch (fn) {
-		case 0: nsync_mu_debug_state (&mu, big, sizeof (big)); r = nsync_mu_debug_state (&mu, buf, sz); break;
-		case 1: nsync_mu_debug_state_and_waiters (&mu, big, sizeof (big)); r = nsync_mu_debug_state_and_waiters (&mu, buf, sz); break;
-		case 2: nsync_cv_debug_state (&cv, big, sizeof (big)); r = nsync_cv_debug_state (&cv, buf, sz); break;
-		default: nsync_cv_debug_state_and_waiters (&cv, big, sizeof (big)); r = nsync_cv_debug_state_and_waiters (&cv, buf, sz); break;
+		char *r = NULL;
+		for (attempt = 0; attempt < 8 && !stable; attempt++) {
+			if (attempt > 0) usleep (3000);
+			memset (area, 0xEE, sizeof (area));
+			memset (big, 0, sizeof (big));
+			memset (big2, 0, sizeof (big2));
+			call (fn, big, (int) sizeof (big));
+			r = call (fn, buf, sz);
+			call (fn, big2, (int) sizeof (big2));
+			stable = strcmp (big, big2) == 0;
 		}
 		printf ("%d %d %d %d ", fn, state, sz, r == buf);
 		hex ((unsigned char *) big, (int) strlen (big));
 		printf (" ");
 		hex (area + 32 - 8, (sz > 0 ? sz : 0) + 16);
-		printf ("\n");
+		printf (" %d\n", stable);
+	}
+}
+
+/* the combined waiter-list text of mu and cv: changes when a thread queues on either */
+static void queues (char *out, int n) {
+	int k;
+	nsync_mu_debug_state_and_waiters (&mu, out, n / 2);
+	k = (int) strlen (out);
+	nsync_cv_debug_state_and_waiters (&cv, out + k, n - k);
+}
+/* start a thread that is going to block, and wait (at most ~3 s) until it has queued: the combined text differs from the
+   one before the thread existed and stays the same for 20 ms.  Only coverage depends on this (which states get exercised);
+   the verdicts do not, see <stable>. */
+static void spawn_and_settle (pthread_t *th, void *(*f) (void *)) {
+	static char before[8192], a[8192], b[8192];
+	int i, same = 0;
+	queues (before, (int) sizeof (before));
+	pthread_create (th, NULL, f, NULL);
+	for (i = 0; i < 600 && same < 4; i++) {
+		usleep (5000);
+		queues (a, (int) sizeof (a));
+		if (strcmp (a, before) != 0 && strcmp (a, b) == 0) same++; else same = 0;
+		strcpy (b, a);
 	}
 }
 
@@ -53,9 +90,9 @@ int main (void) {
 	int state, fn, k, nt = 0;
 	for (state = 0; state <= 3; state++) {
 		/* state s: s waiters queued on mu (mixed kinds) and s on cv */
-		if (state == 1) { nsync_mu_lock (&mu); pthread_create (&th[nt++], NULL, locker, NULL); usleep (30000); }
-		if (state == 2) { pthread_create (&th[nt++], NULL, rlocker, NULL); usleep (30000); }
-		if (state == 3) { pthread_create (&th[nt++], NULL, locker, NULL); usleep (30000); }
+		if (state == 1) { nsync_mu_lock (&mu); spawn_and_settle (&th[nt++], locker); }
+		if (state == 2) spawn_and_settle (&th[nt++], rlocker);
+		if (state == 3) spawn_and_settle (&th[nt++], locker);
 		for (fn = 0; fn < 2; fn++) run_sizes (fn, state);
 	}
 	go = 1;
@@ -63,7 +100,7 @@ int main (void) {
 	for (k = 0; k < nt; k++) pthread_join (th[k], NULL);
 	nt = 0; go = 0;
 	for (state = 0; state <= 3; state++) {
-		if (state >= 1) { pthread_create (&th[nt++], NULL, state == 2 ? cwaiter : cvwaiter, NULL); usleep (30000); }
+		if (state >= 1) spawn_and_settle (&th[nt++], state == 2 ? cwaiter : cvwaiter);
 		for (fn = 0; fn < 4; fn++) run_sizes (fn, 10 + state);
 	}
 	nsync_mu_lock (&mu); go = 1; nsync_cv_broadcast (&cv); nsync_mu_unlock (&mu);
